@@ -73,6 +73,7 @@ def Gm.mdl (g : Gm) (expl : Rat) (slack : Option Rat) (entropy : Bool) : Mdl :=
     gamma := g.gamma,
     rollOff := if g.kind == 2 then Gen.C19.pomcpRollOff else Gen.C19.mctsRollOff,
     rollGuard := Gen.C19.pomcpRollGuard,
+    advGuard := if g.kind == 2 then Gen.C19.pomcpAdvGuard else Gen.C19.mctsAdvGuard,
     numA := g.nA,
     valid := g.valid }
 
@@ -504,7 +505,7 @@ def rrun : P String := do
   let _expl ← P.q; let kk ← P.nat; let ent ← P.bool
   let calls ← pRCalls 64
   P.eof
-  let st0 : RSt := { t := R.RTree.fresh [] 0, prev := [], diffs := [], fails := [], sims := 0 }
+  let st0 : RSt := { t := R.RTree.fresh [] g.amax, prev := [], diffs := [], fails := [], sims := 0 }   -- the constructor allocates the head's A action nodes
   let st := calls.foldl (runRCall g (fun e => { g.mdl e none ent with pomcp := true }) kk) st0
   if !st.diffs.isEmpty && st.fails.isEmpty then
     let st2 := calls.foldl (runRCall g (fun e => { g.mdl e (some slackTol) ent with pomcp := true }) kk) st0
@@ -575,6 +576,7 @@ def rhead : P String := do
   let badState := samples.filter (fun pr => R.countOf head pr.2 == 0)
   let v := v.failIf (!badState.isEmpty) s!"{cn} sampled_state_not_a_particle (pick,state)={badState.headD (0,0)} sampleBelief_={head}"
   let v := v.diffIf (!sync) s!"{cn} head engine out of sync with the predicted draws"
+  let v := v.diffIf (Gen.C19.sampleDrawLo != 1) "rPOMCP sampleBelief draw does not start at 1"
   let badWalk := samples.filter (fun pr => R.sampleWalk head (pr.1 : Int) != some pr.2)
   let v := v.diffIf (sync && !badWalk.isEmpty) s!"{cn} sampleBelief walk (pick,state)={badWalk.headD (0,0)} model={R.sampleWalk head ((badWalk.headD (0,0)).1 : Int)} sampleBelief_={head}"
   -- most common particle
